@@ -5,6 +5,7 @@ import (
 	"fmt"
 	"math"
 
+	"github.com/yaricom/goNEAT/v4/neat"
 	"github.com/yaricom/goNEAT/v4/neat/genetics"
 	neatmath "github.com/yaricom/goNEAT/v4/neat/math"
 	"github.com/yaricom/goNEAT/v4/neat/network"
@@ -30,7 +31,7 @@ func init() {
 		RealParts:  []string{"Network.LoadSensors / ActivateSteps / ForwardSteps / RecursiveSteps, Network.FastNetworkSolver translation, FastModularNetworkSolver ForwardSteps / RecursiveSteps / Relax", "scalar activation functions as trusted primitives of the reference"},
 		StubParts:  []string{"fitness assignment"},
 		Assumes:    []string{"tolerance 1e-9 for summation order; input vectors that put a step / sign neuron within 1e-9 of its discontinuity are skipped and counted", "networks with a neuron that no sensor reaches, or with a cycle, are outside the property and skipped (counted)"},
-		ProbeNames: []string{"probe.net.hidden", "probe.net.bias_link_matters", "probe.net.depth>=3", "probe.net.skip_connection", "probe.net.multi_output", "probe.net.nonsigmoid_activation", "probe.reused_after_flush", "probe.net.hand_built_permuted", "skipped.cyclic", "skipped.unreachable_neuron"},
+		ProbeNames: []string{"probe.net.hidden", "probe.net.bias_link_matters", "probe.net.depth>=3", "probe.net.skip_connection", "probe.net.multi_output", "probe.net.nonsigmoid_activation", "probe.reused_after_flush", "probe.net.hand_built_permuted", "probe.net.deep_chain", "skipped.cyclic", "skipped.unreachable_neuron"},
 	})
 	Register(&Scenario{
 		Prop: "C13", Run: scenarioC13, QuickRuns: 30000, ThoroughRuns: 750000, Level: "exploration",
@@ -48,7 +49,7 @@ func init() {
 		StubParts:  []string{"fitness assignment"},
 		FaultKinds: []string{"fault.capped_depth_query_hit"},
 		Assumes:    []string{"<= 14 nodes per network keeps the library's own exponential search cheap", "non-modular networks with at least one hidden node"},
-		ProbeNames: []string{"probe.dag", "probe.cyclic", "probe.depth>=3", "probe.cap_hit_then_query", "probe.shared_subpath", "probe.disabled_module_genome", "probe.print_paths_then_query", "probe.direct_node_depth_query"},
+		ProbeNames: []string{"probe.dag", "probe.cyclic", "probe.depth>=3", "probe.cap_hit_then_query", "probe.shared_subpath", "probe.disabled_module_genome", "probe.print_paths_then_query", "probe.direct_node_depth_query", "probe.isrecurrent_then_query"},
 	})
 }
 
@@ -252,6 +253,42 @@ func outsClose(a, b []float64) (int, bool) {
 	return 0, true
 }
 
+// BuildDeepChain hand-builds a feed-forward genome with one long path (20..32 links) of tanh / linear neurons plus a
+// short cut, so that the depth matters and the signal neither saturates nor dies on the way.
+func BuildDeepChain(t *Tape) *genetics.Genome {
+	tr := neat.NewTrait()
+	tr.Id = 1
+	depth := t.Range("deep.depth", 20, 32)
+	var nodes []*network.NNode
+	in := network.NewSensorNode(1, false)
+	bias := network.NewSensorNode(2, true)
+	out := network.NewNNode(3, network.OutputNeuron)
+	out.ActivationType = neatmath.TanhActivation
+	nodes = append(nodes, in, bias, out)
+	var genes []*genetics.Gene
+	innov := int64(1)
+	link := func(a, b *network.NNode, w float64) {
+		g := genetics.NewGene(w, a, b, false, innov, w)
+		g.Link.InNode, g.Link.OutNode, g.Link.ConnectionWeight, g.Link.IsRecurrent, g.IsEnabled = a, b, w, false, true
+		genes = append(genes, g)
+		innov++
+	}
+	prev := in
+	for i := 0; i < depth-1; i++ {
+		h := network.NewNNode(4+i, network.HiddenNeuron)
+		h.ActivationType = []neatmath.NodeActivationType{neatmath.TanhActivation, neatmath.LinearActivation}[t.Draw("deep.act", 2)]
+		nodes = append(nodes, h)
+		link(prev, h, 0.7+0.6*t.Float("deep.w"))
+		prev = h
+	}
+	link(prev, out, 0.9)
+	link(bias, out, 0.3*t.Float("deep.bias"))
+	if t.Chance("deep.shortcut", 1, 2) {
+		link(in, out, 0.2)
+	}
+	return genetics.NewGenome(1, []*neat.Trait{tr}, nodes, genes)
+}
+
 func scenarioC12(c *RunCtx) {
 	t := c.T
 	maxPop, maxEpochs := 16, 12
@@ -268,6 +305,10 @@ func scenarioC12(c *RunCtx) {
 	c.Sample = w.Describe()
 	c.Op("world: %s", w.Describe())
 	genomes = append(genomes, BuildGenome(t, GenomeSpec{AllowDisabled: true, MaxHidden: 5, ActSwarm: true, FeedForwardOnly: true}))
+	if t.Chance("deepChain", 1, 12) {
+		genomes = append(genomes, BuildDeepChain(t))
+		c.Count("probe.net.deep_chain")
+	}
 	for gi, g := range genomes {
 		rec := Canon(g)
 		ref := RefExpress(rec)
@@ -489,6 +530,20 @@ func scenarioC12(c *RunCtx) {
 				}
 			}
 			stdMode, fastMode := t.Draw("kept.std.mode", 2), t.Draw("kept.fast.mode", 3)
+			rejectedLoad := t.Chance("kept.fast.rejectedLoad", 1, 4)
+			var badVec []float64
+			if rejectedLoad {
+				n := len(in) + 1 + t.Draw("badVec.extra", 3)
+				if len(in) > 1 && t.Chance("badVec.short", 1, 2) {
+					n = 1 + t.Draw("badVec.len", len(in)-1)
+				}
+				bs := t.Sub("badVec.vals")
+				badVec = make([]float64, n)
+				for i := range badVec {
+					badVec[i] = bs.Float()*6 - 3
+				}
+				c.Count("fault.rejected_sensor_load")
+			}
 			if !info.HasHidden {
 				stdMode = 0
 			}
@@ -512,6 +567,13 @@ func scenarioC12(c *RunCtx) {
 					gotStd = keptStd.ReadOutputs()
 				}
 				if errFast = keptFast.LoadSensors(in); errFast == nil {
+					if rejectedLoad {
+						// a load of the wrong size is rejected; a rejected load must leave the loaded sensor values alone
+						if e2 := keptFast.LoadSensors(badVec); e2 == nil {
+							errFast = fmt.Errorf("LoadSensors accepted %d values for %d inputs", len(badVec), len(in))
+							return
+						}
+					}
 					switch fastMode {
 					case 0:
 						_, errFast = keptFast.ForwardSteps(L + extra)
@@ -980,8 +1042,18 @@ func scenarioC14(c *RunCtx) {
 		var trace string
 		nin := ref.NumPlainInputs()
 		for q := 0; q < nq; q++ {
-			kind := t.Pick("query", 3, 4, 1, 1, 1)
+			kind := t.Pick("query", 3, 4, 1, 1, 1, 1)
 			switch kind {
+			case 5:
+				// the recurrence check mutateAddLink makes on the phenotype: a walk over the same nodes
+				if all := net.AllNodes(); len(all) >= 2 {
+					a, b := all[t.Draw("isrec.a", len(all))], all[t.Draw("isrec.b", len(all))]
+					count := 0
+					var rec bool
+					c.LibSoft("Network.IsRecurrent", func() { rec = net.IsRecurrent(a, b, &count, len(all)*len(all)) })
+					trace += fmt.Sprintf(" IsRecurrent(%d,%d)=%t;", a.Id, b.Id, rec)
+					c.Count("probe.isrecurrent_then_query")
+				}
 			case 3:
 				// the path printer walks the same marks
 				failAt := -1
